@@ -166,7 +166,7 @@ type vtC17World struct {
 func (w *vtC17World) fail() bool {
 	k := w.nwrite
 	w.nwrite++
-	return k < 62 && (w.mask>>uint(k))&1 == 1
+	return k < 16 && (w.mask>>uint(k))&1 == 1
 }
 
 func (w *vtC17World) getRes() *sev1alpha1.Reservation {
@@ -403,7 +403,7 @@ func (w *vtC17World) setPod(a []int64) {
 	switch a[3] {
 	case 1:
 		p.Status.Phase = corev1.PodPending
-		p.Status.Conditions = []corev1.PodCondition{{Type: corev1.PodScheduled, Status: corev1.ConditionFalse, Reason: "Unschedulable", Message: "no node"}}
+		p.Status.Conditions = []corev1.PodCondition{{Type: corev1.PodScheduled, Status: corev1.ConditionFalse, Reason: "Unschedulable"}}
 	case 2:
 		p.Status.Conditions = []corev1.PodCondition{{Type: corev1.PodScheduled, Status: corev1.ConditionTrue}}
 	}
